@@ -160,9 +160,9 @@ impl Lexer {
     /// This function will return a range with the start and end position
     /// being the current position of the lexer.
     fn get_range(&self) -> Range {
-        let mut end = self.get_pos();
-        end.increment_column();
-        Range::new(self.get_pos(), end)
+        // The end of a range is the position of its last character, as for
+        // the tokens that are longer than one character.
+        Range::new(self.get_pos(), self.get_pos())
     }
 
     /// Get the current position of the lexer.
